@@ -18,6 +18,7 @@ Every panic source (analysis/panics.py) must be discharged by one of
 Anything else is a violation.  R-LOOP: every loop must be an iterator loop over a finite collection, or carry a registered
 progress argument that is checked.
 """
+import os
 import re
 
 from analysis import rule
@@ -50,6 +51,20 @@ HYPOTHESES = {
     "H-PDU": "PDUs requested by applications respect the DP limits (Set_Prm user parameters <= 237 bytes, Chk_Cfg / process images <= 244 bytes)",
     "I-TXRESP": "internal invariant: TelegramTxResponse.bytes_sent <= 255 (support: every TelegramTxResponse::new call in the reachable set passes a "
                 "value the numeric analysis bounds by 255 - the return value of a serialize function)",
+    "I-ADDR125": "internal invariant: every station address held in the token ring (this/next/previous station, bits of the LAS) and every address the "
+                 "station waits for is <= 125 (support: writers of TokenRing.{this,next,previous}_station; C12 clauses a/a' for GAP addresses; the "
+                 "guards of witness_token_pass are proved numerically here)",
+    "I-PROBE": "internal invariant: LiveList / DpScanner are told about the address they probed, which is their sweep cursor <= 125 (C18 clause a.range, re-run here; "
+               "routing of the awaited address: C04/C15)",
+    "X-BITVEC": "bitvec contract: iter_ones() of a 128-bit array yields indices < 128",
+    "I-PSET": "internal invariant: an occupied slot of PeripheralSet has an index <= 255, because PeripheralSet::add - the only writer of PeripheralStorage.inner - "
+              "converts the slot index with u8::try_from(..).unwrap() when it fills a slot (support: writers of `inner`, try_from on every filling path)",
+    "I-INFLIGHT": "internal invariant: between a request transmitted by DpMaster and its reply/time-out, cycle_state stays DataExchange(i) and slot i keeps the addressed "
+                  "peripheral (support: writers of cycle_state are the master's own callbacks; PeripheralStorage.inner is never cleared - there is no remove API; "
+                  "requests are only sent from the DataExchange arm)",
+    "I-FCB": "internal invariant: Peripheral.fcb is never FrameCountBit::Inactive (support: all writers of Peripheral.fcb are reset()/cycle()/the constructor with First)",
+    "I-COLLISION": "internal invariant: the own-address collision counters are 0 or 1 between polls: every increment that yields a value other than 1 replaces the "
+                   "whole state (support: counter rule check_counters)",
     "H-APPS": "the application list passed to poll_multi() is not changed while the station is online (documented on poll_multi: `may lead to ... panics`)",
 }
 
@@ -66,9 +81,27 @@ TYPE_INVARIANTS = [
     (re.compile(r"^&(mut )?('\w+ )?fdl::active::FdlActiveStation$"), ("deref", "p"), PARAM_FIELDS, PARAM_RELS, "H-PARAM"),
     (re.compile(r"^fdl::telegram::TelegramTx<'\w+>$"), (), [("len", ("buf",), 256, 2 ** 63 - 1)], [], "H-TXBUF"),
     (re.compile(r"^&(mut )?('\w+ )?dp::peripheral::Peripheral<'\w+>$"), ("deref",), PERIPH_FIELDS, [], "H-PDU"),
+    (re.compile(r"^&(mut )?('\w+ )?fdl::token_ring::TokenRing$"), ("deref",),
+     [("v", ("this_station",), 0, 125), ("v", ("next_station",), 0, 125), ("v", ("previous_station",), 0, 125)], [], "I-ADDR125"),
+    (re.compile(r"^&(mut )?('\w+ )?fdl::active::FdlActiveStation$"), ("deref", "token_ring"),
+     [("v", ("this_station",), 0, 125), ("v", ("next_station",), 0, 125), ("v", ("previous_station",), 0, 125)], [], "I-ADDR125"),
     (re.compile(r"^fdl::telegram::TelegramTxResponse$"), (), [("v", ("bytes_sent",), 0, 255)], [], "I-TXRESP"),
     (re.compile(r"^std::option::Option<fdl::telegram::TelegramTxResponse>$"), ("<Some>", "0"), [("v", ("bytes_sent",), 0, 255)], [], "I-TXRESP"),
 ]
+
+# argument hypotheses that do not come from call sites: (function name suffix, parameter index) -> (kind, lo, hi, hypothesis)
+EXTRA_ARG_HYP = {
+    ("fdl::token_ring::TokenRing::set_next_station", 2): ("int", 0, 125, "I-ADDR125"),
+    ("fdl::token_ring::TokenRing::remove_station", 2): ("int", 0, 125, "I-ADDR125"),
+    ("<fdl::live_list::LiveList as fdl::FdlApplication>::receive_reply", 4): ("int", 0, 125, "I-PROBE"),
+    ("<fdl::live_list::LiveList as fdl::FdlApplication>::handle_timeout", 4): ("int", 0, 125, "I-PROBE"),
+    ("<dp::scan::DpScanner as fdl::FdlApplication>::receive_reply", 4): ("int", 0, 125, "I-PROBE"),
+    ("<dp::scan::DpScanner as fdl::FdlApplication>::handle_timeout", 4): ("int", 0, 125, "I-PROBE"),
+    ("fdl::token_ring::TokenRing::iter_active_stations::{closure#0}", 2): ("int", 0, 127, "X-BITVEC"),
+    ("fdl::live_list::LiveList::iter_stations::{closure#0}", 2): ("int", 0, 127, "X-BITVEC"),
+    ("phy::ProfibusPhy::transmit_telegram::{closure#0}", 2): ("len", 256, 2 ** 63 - 1, "H-TXBUF"),
+    ("dp::peripheral_set::PeripheralSet::<'a>::get_at_index_mut::{closure#0}::{closure#0}", None): ("upvar-int", 0, 255, "I-PSET"),
+}
 
 # higher-order contracts: callee suffix -> (index of the length argument, index of the closure argument, closure parameter holding the buffer)
 # "the closure is called with a buffer of exactly <length argument> bytes" - support: check_hof_support()
@@ -172,6 +205,10 @@ class Numeric:
                 ty = f.locals[l]["ty"]
                 self.apply_type_inv(st, l, ty, used)
                 h = hyp.get(l)
+                for (suffix, pi), (k2, lo2, hi2, hn) in EXTRA_ARG_HYP.items():
+                    if pi == l and f.name.endswith(suffix):
+                        used.add(hn)
+                        h = (k2, lo2, hi2) if h is None or h[0] != k2 else (k2, max(h[1], lo2), min(h[2], hi2))
                 if h is not None:
                     kind, lo, hi = h
                     v = ("v", l, ()) if kind == "int" else ("len", l, ())
@@ -394,6 +431,17 @@ def check(ctx):
     for f in fns:
         if f.name.endswith("FdlActiveStation::next_gap_poll"):
             delegated[f.name] = ("C12.a", ok12)
+    # the authors' GAP assertions (poll address != own address, poll address == DoPoll payload) are clauses of C12
+    ok12p = ok12 and delegate(ctx, "C12.prov", lambda s: C12.check_provenance(s, P), "C12")
+    # serialize's closing `debug_assert_eq!(cursor, telegram_len(..))` is the agreement of the writer layout with the length table (C09.b/d)
+    from rules import C09
+    ok09 = delegate(ctx, "C09.b", lambda s: (C09.check_frames(s, P), C09.check_counts(s, P)), "C09")
+    site_delegated = {
+        ("fdl::active::FdlActiveStation::transmit_gap_poll_if_pending", "debug_assert_ne"): ("C12.prov", ok12p),
+        ("fdl::active::FdlActiveStation::await_gap_poll_response", "debug_assert_ne"): ("C12.prov", ok12p),
+        ("fdl::active::FdlActiveStation::await_gap_poll_response", "debug_assert"): ("C12.prov", ok12p),
+        ("fdl::telegram::DataTelegramHeader::serialize", "debug_assert_eq"): ("C09.b", ok09),
+    }
 
     # ---- T: typestate contexts (only those reachable from poll_inner started in a state of the invariant)
     ip, inv, muts = fdlstate.station_analysis(P)
@@ -521,17 +569,26 @@ def check(ctx):
                             how = "G"
                         else:
                             detail = "unwrap of %s which may be None/Err" % show(arg)[:100]
+            if how is None and (f.name, mac) in site_delegated:
+                nm, okd = site_delegated[(f.name, mac)]
+                if okd:
+                    how = "D"
+                else:
+                    detail = "delegated clause %s failed" % nm
             if how is None:
                 h = residual(f, s, detail)
                 if h is not None:
                     how = "H:" + h
                     used_h.add(h)
             counts[how] = counts.get(how, 0) + 1
+            if os.environ.get("C05_DUMP"):
+                print("SITE %-4s %-14s %-28s %s %s" % (how, s["kind"], loc, mac or what, f.name))
             ctx.ob("a.panic", key, how is not None,
                    "%s `%s` is not discharged: %s" % (s["kind"], mac or what, detail or "reachable in the typestate analysis and no numeric / guard argument applies"), loc)
             if how and how[0] in "TNG" and len(ctx.samples) < 10:
                 ctx.sample("%s: %s `%s` discharged by %s" % (loc, s["kind"], mac or what, {"T": "typestate (unreachable in every context)", "N": "interval/zone proof", "G": "must-guard"}[how[0]]))
     ctx.anchor("panic sources inventoried", nsites, 150)
+    check_support(ctx, P, cg, num, used_h | {x for v in num.used_hyps.values() for x in v})
     for h in sorted(used_h | {x for v in num.used_hyps.values() for x in v}):
         ctx.assume("%s: %s" % (h, HYPOTHESES[h]))
     ctx.notes.append("discharge methods: " + ", ".join("%s=%d" % (k, v) for k, v in sorted(counts.items(), key=lambda kv: str(kv[0]))))
@@ -575,6 +632,193 @@ def app_typestate(ctx, P, cg):
     return visited, flagged
 
 
+def check_support(ctx, P, cg, num, used):
+    """support checks tying the internal invariants (I-*) to the code: who-writes and shape rules"""
+    from analysis.query import mut_uses_of_field, stmts
+    from analysis.ir import mk_place
+
+    def writers(field, ty=None, kinds=("assign", "calldest", "setdiscr")):
+        return sorted({u["fn"].name for u in mut_uses_of_field(P, CR, field, ty) if u["kind"] in kinds and not u["fn"].j.get("derived")})
+
+    if "H-PARAM" in used:
+        w = [n for n in writers("p", "Parameters") if "FdlActiveStation" in n]
+        ok = set(w) <= {"fdl::active::FdlActiveStation::new", "fdl::active::FdlActiveStation::set_state"}
+        ctx.ob("s.support", "H-PARAM|writers-of-station-parameters", ok, "FdlActiveStation.p is written outside new()/set_state(): %s" % w)
+        # the builder asserts the ranges used as hypotheses
+        b = P.get(CR, "fdl::parameters::ParametersBuilder::highest_station_address")
+        n_assert = 0
+        for f in P.crate_fns(CR):
+            if f.name.startswith("fdl::parameters::ParametersBuilder::"):
+                n_assert += sum(1 for s in panic_sites(f, P, CR) if s["kind"] == "panic-call" and "assert" in s["mac"])
+        ctx.anchor("assert!s in the ParametersBuilder setters (ranges of H-PARAM)", n_assert, 8)
+    if "I-ADDR125" in used:
+        for fld in ("this_station", "next_station", "previous_station"):
+            w = writers(fld, "u8")
+            ok = set(w) <= {"fdl::token_ring::TokenRing::new", "fdl::token_ring::TokenRing::update_next_previous"}
+            ctx.ob("s.support", "I-ADDR125|writers-of-%s" % fld, ok and (bool(w) or fld == "this_station"), "TokenRing.%s written in %s" % (fld, w))
+    if "I-PSET" in used or "I-INFLIGHT" in used:
+        w = writers("inner", "Peripheral")
+        ok = set(w) <= {"dp::peripheral_set::PeripheralSet::<'a>::add"}
+        ctx.ob("s.support", "I-PSET|writers-of-slot", ok and bool(w), "PeripheralStorage.inner is assigned in %s (only PeripheralSet::add may fill or clear a slot)" % w)
+        add = P.get(CR, "dp::peripheral_set::PeripheralSet::<'a>::add")
+        n = 0
+        if add is not None:
+            n = sum(1 for b, c in call_sites(add) if "try_from" in (c.get("callee") or "") or "try_into" in (c.get("callee") or ""))
+        ctx.ob("s.support", "I-PSET|index-converted-when-filling", n >= 2, "PeripheralSet::add converts the slot index with try_from/try_into on %d of its 2 filling paths" % n)
+    if "I-INFLIGHT" in used:
+        w = writers("cycle_state", "CycleState")
+        allowed = {"dp::master::DpMaster::<'a>::new", "dp::master::DpMaster::<'a>::increment_cycle_state",
+                   "<dp::master::DpMaster<'a> as fdl::FdlApplication>::transmit_telegram", "<dp::master::DpMaster<'a> as fdl::FdlApplication>::receive_reply"}
+        ctx.ob("s.support", "I-INFLIGHT|writers-of-cycle-state", set(w) <= allowed and bool(w), "DpMasterState.cycle_state written in %s" % w)
+        # requests are sent only while cycle_state is DataExchange: the only transmitting path of the slot loop reads the index from that arm
+        f = P.get(CR, "<dp::master::DpMaster<'a> as fdl::FdlApplication>::transmit_telegram")
+        ok = False
+        if f is not None:
+            ga = GuardAnalysis(f, P, mem_kill=True, modsets=ModSets(P))
+            ok = True
+            seen_site = 0
+            for b, c in call_sites(f):
+                if (c.get("callee") or "").endswith("Peripheral::<'a>::transmit_telegram"):
+                    seen_site += 1
+                    m = ga.must(b)
+                    key = [vs for k, vs in (m.items() if m else []) if k[0] == "discr" and show(k[1]).endswith("state.cycle_state")]
+                    ok = ok and bool(key) and key[0] == ("in", frozenset(["DataExchange"]))
+            ok = ok and seen_site >= 1
+        ctx.ob("s.support", "I-INFLIGHT|requests-only-in-data-exchange", ok, "a peripheral request can be sent while cycle_state is not DataExchange")
+    if "I-FCB" in used:
+        bad = []
+        nw = 0
+        for u in mut_uses_of_field(P, CR, "fcb", "FrameCountBit"):
+            f = u["fn"]
+            if f.j.get("derived") or "Peripheral" not in f.name:
+                continue
+            nw += 1
+            if u["kind"] == "assign":
+                rv = u["rv"]
+                vname = rv.get("variant") or ((rv.get("use") or {}).get("k") or {}).get("variant")
+                if not (vname in ("First", "Low", "High")):
+                    bad.append("%s assigns %s" % (f.loc(u["b"]), rv.get("variant") or "a computed value"))
+            elif u["kind"] == "refmut":
+                # the &mut borrow must flow into FrameCountBit::reset / cycle only
+                from analysis.query import flows_to_calls
+                cal = [c.get("callee") or "" for (_, c, _) in flows_to_calls(f, u["dest"][0])] if not u["dest"][1] else ["?"]
+                if not cal or not all(x.endswith(("FrameCountBit::reset", "FrameCountBit::cycle")) for x in cal):
+                    bad.append("%s lends &mut fcb to %s" % (f.loc(u["b"]), cal))
+        for name, allowed in (("fdl::telegram::FrameCountBit::reset", {"First"}), ("fdl::telegram::FrameCountBit::cycle", {"Low", "High"})):
+            g = P.get(CR, name)
+            got = set()
+            if g is not None:
+                for b, i, st_ in stmts(g):
+                    if "a" not in st_:
+                        continue
+                    rv_ = st_["rv"]
+                    k_ = (rv_.get("use") or {}).get("k") or {}
+                    if (rv_.get("adt") or "").endswith("FrameCountBit") and rv_.get("variant"):
+                        got.add(rv_["variant"])
+                    elif (k_.get("adt") or "").endswith("FrameCountBit") and k_.get("variant"):
+                        got.add(k_["variant"])
+            if not got or not got <= allowed:
+                bad.append("%s stores %s" % (name, sorted(got)))
+        ctx.ob("s.support", "I-FCB|writers", not bad and nw >= 2, "; ".join(bad) or "writers of Peripheral.fcb not found")
+    if "I-COLLISION" in used:
+        check_counters(ctx, P)
+    if "I-TXRESP" in used:
+        h = num.arg_hyp.get("fdl::telegram::TelegramTxResponse::new", {}).get(1)
+        ctx.ob("s.support", "I-TXRESP|new-called-with-serialize-result", h is not None and h[2] <= 255,
+               "TelegramTxResponse::new is called with bytes_sent in %s (must be <= 255)" % (h,))
+    if "I-PROBE" in used:
+        from rules import C18
+        sub = rule.Ctx("C18", ctx.tier, ctx.config, ctx.prog)
+        C18.check(sub)
+        bad = [o for o in sub.obligations if o["clause"] == "a.range" and not o["ok"]]
+        ctx.ob("s.support", "I-PROBE|C18.a.range", not bad, "; ".join(o["detail"] for o in bad[:2]))
+    # the closure of send_data_telegram gets exactly pdu_len bytes
+    check_hof_support(ctx, P)
+
+
+def check_counters(ctx, P):
+    """I-COLLISION: at every `*collision_count += 1`, each path to the function's exit either leaves the counter at 1 or replaces the
+    state (set_offline / a transition), so the counter never exceeds 1 between polls; constructions start it at 0."""
+    from analysis.query import stmts, constructions
+    n = 0
+    for name in ("fdl::active::FdlActiveStation::do_listen_token::{closure#1}", "fdl::active::FdlActiveStation::handle_telegram"):
+        f = P.get(CR, name)
+        if f is None:
+            ctx.ob("s.support", "I-COLLISION|fn|" + name, False, "function not found")
+            continue
+        tb = TermBuilder(f, P)
+        marks = {}
+        for b, i, s in stmts(f):
+            if "a" in s and s["a"].get("p") == ["deref"] and "use" in s["rv"]:
+                src = show(tb.rvalue(s["rv"]))
+                if "collision_count" in src and ("Add" in src) and "1" in src:
+                    marks[(b, i)] = "inc"
+        for b, c in call_sites(f):
+            cal = c.get("callee") or ""
+            if cal.endswith(("::set_offline", "::set_state")) or "::transition_" in cal:
+                marks[(b, None)] = "replace"
+        ninc = sum(1 for v in marks.values() if v == "inc")
+        n += ninc
+        if not ninc:
+            ctx.ob("s.support", "I-COLLISION|inc-site|" + name, False, "increment of the collision counter not found")
+            continue
+        ga = GuardAnalysis(f, P, marks=marks, max_disj=64)
+        bad = []
+        for rb in f.return_blocks:
+            for fs in ga.at(rb):
+                if ga.count_of(fs, "inc") == {0}:
+                    continue
+                if 0 not in ga.count_of(fs, "replace") and ga.count_of(fs, "replace"):
+                    continue
+                one = [vs for k, vs in fs.items() if "collision_count" in show(k) and vs == ("in", frozenset([1]))]
+                if not one:
+                    bad.append(f.loc(rb))
+        ctx.ob("s.support", "I-COLLISION|bounded|" + name, not bad,
+               "after incrementing the collision counter a path returns without the counter being 1 and without replacing the state: %s" % sorted(set(bad))[:3])
+    ctx.anchor("collision counter increments", n, 2)
+    for var in ("ListenToken", "ActiveIdle"):
+        cons = [c for c in constructions(P, CR, "fdl::active::State", var)]
+        bad = []
+        for c in cons:
+            rv = c["rv"]
+            if "collision_count" in (rv.get("fnames") or []):
+                fo = rv["fields"][rv["fnames"].index("collision_count")]
+                if (fo.get("k") or {}).get("int") != 0:
+                    bad.append(c["fn"].loc(c["b"], c["i"]))
+        ctx.ob("s.support", "I-COLLISION|init|" + var, bool(cons) and not bad, "State::%s constructed with a non-zero collision counter at %s" % (var, bad))
+
+
+def check_hof_support(ctx, P):
+    """send_data_telegram forwards (pdu_len, closure) unchanged to serialize, which calls the closure once with a slice of pdu_len bytes"""
+    sd = P.get(CR, "fdl::telegram::TelegramTx::<'a>::send_data_telegram")
+    ser = P.get(CR, "fdl::telegram::DataTelegramHeader::serialize")
+    if sd is None or ser is None:
+        ctx.ob("s.support", "HOF|anchors", False, "send_data_telegram / serialize not found")
+        return
+    tb = TermBuilder(sd, P)
+    ok = False
+    for b, c in call_sites(sd):
+        if (c.get("callee") or "").endswith("DataTelegramHeader::serialize"):
+            a2, a3 = tb.joperand(c["args"][2]), tb.joperand(c["args"][3])
+            ok = a2 == ("arg", "pdu_len") and a3 == ("arg", "write_pdu")
+    ctx.ob("s.support", "HOF|forwarded", ok, "send_data_telegram does not pass its pdu_len / closure arguments unchanged to serialize")
+    na = NumAnalysis(ser, P, partition_discr=True, max_disj=64)
+    n, good = 0, True
+    for b, c in call_sites(ser):
+        if "FnOnce" in (c.get("callee") or c.get("decl") or "") or "call_once" in (c.get("callee") or c.get("decl") or ""):
+            n += 1
+            for st in na.states_at_term(b):
+                tup = c["args"][1]
+                pj = tup.get("mv") or tup.get("cp")
+                from analysis.ir import mk_place
+                ln = ("len", pj["l"], (("f", "0"),))
+                d_hi = st.z.get(ln, ("v", 3, ()))
+                d_lo = -st.z.get(("v", 3, ()), ln)
+                if not (d_hi == 0 and d_lo == 0):
+                    good = False
+    ctx.ob("s.support", "HOF|closure-buffer-is-pdu_len", n == 1 and good, "serialize must call the PDU writer exactly once with a slice of exactly pdu_len bytes (calls: %d, equal: %s)" % (n, good))
+
+
 # residual table: (function suffix, site kind, detail regex or None) -> hypothesis
 RESIDUAL = [
     ("<time::Instant as std::ops::Add<time::Duration>>::add", "assert", r"Overflow\(Add\)", "H-TIME"),
@@ -584,6 +828,12 @@ RESIDUAL = [
     ("<time::Instant as std::ops::AddAssign<time::Duration>>::add_assign", "assert", r"Overflow\(Add\)", "H-TIME"),
     ("<time::Duration as std::ops::Mul<u32>>::mul", "assert", r"Overflow\(Mul\)", "H-TIME"),
     ("<time::Duration as std::ops::Add>::add", "assert", r"Overflow\(Add\)", "H-TIME"),
+    ("<dp::master::DpMaster<'a> as fdl::FdlApplication>::receive_reply", "panic-call", r"unreachable", "I-INFLIGHT"),
+    ("dp::peripheral_set::PeripheralSet::<'a>::get_at_index_mut::{closure#0}::{closure#0}", "extern-unwrap", r"unwrap", "I-PSET"),
+    ("dp::peripheral_set::PeripheralSet::<'a>::get_next_index::{closure#1}", "extern-unwrap", r"unwrap", "I-PSET"),
+    ("fdl::active::FdlActiveStation::do_listen_token::{closure#1}", "assert", r"Overflow\(Add\)", "I-COLLISION"),
+    ("fdl::active::FdlActiveStation::handle_telegram", "assert", r"Overflow\(Add\)", "I-COLLISION"),
+    ("fdl::telegram::FrameCountBit::cycle", "panic-call", r"panic", "I-FCB"),
     # H-APPS: `apps[self.next_application]` and the round-robin increment
     ("fdl::active::FdlActiveStation::apps_transmit_telegram", "assert", r"BoundsCheck", "H-APPS"),
     ("fdl::active::FdlActiveStation::do_await_data_response", "assert", r"BoundsCheck", "H-APPS"),
@@ -593,7 +843,7 @@ RESIDUAL = [
 
 def residual(f, s, detail):
     for suffix, kind, rx, h in RESIDUAL:
-        if f.name.endswith(suffix) and s["kind"] == kind and (rx is None or re.search(rx, s["what"] + " " + detail)):
+        if f.name.endswith(suffix) and s["kind"] == kind and (rx is None or re.search(rx, s["what"] + " " + " ".join(s["mac"]) + " " + detail)):
             return h
     return None
 
